@@ -631,6 +631,9 @@ def if_calls_rule(run, quick):
                 pieces += [inner(), rng.choice(["", " ", "y", "\n", " z "])]
             return "".join(pieces)
         cond = rng.choice(["", " ", "x", " x ", "\n", "0", "a=b", "  \t"])
+        if rng.random() < 0.4:
+            # the condition holds calls as well (c04_if_with_calls_in_its_condition); a template with an empty body makes it blank
+            cond = rng.choice(["", " ", "\n"]) + inner() + rng.choice(["", " ", inner()])
         page = "{{#if:" + "|".join([cond] + [branch() for _ in range(rng.randint(0, 3))]) + "}}"
         cases.append({"lib": libn, "page": page, "opts": {}, "title": "Tt"})
     res = lib.run_impl("expandlib", cases, shards=lib.NCPU)
@@ -641,32 +644,32 @@ def if_calls_rule(run, quick):
             run.property_failure("ifcalls:%s:%s" % (r.get("outcome"), r.get("exc", "")), "expand() did not return normally: %r" % (r,), c)
             continue
         pa = r["page_ast"]
-        if len(pa) != 1 or isinstance(pa[0], int) or pa[0][0] != "T" or any(not isinstance(y, int) for y in pa[0][1][0]) \
-                or pa[0][1][0][:4] != [35, 105, 102, 58]:
+        if len(pa) != 1 or isinstance(pa[0], int) or pa[0][0] != "T" or pa[0][1][0][:4] != [35, 105, 102, 58]:
             run.correspondence_break("a generated #if call was not read as one call", c, page_ast=pa)
             continue
         def norm(seq):
             return [x if isinstance(x, int) else ["T", [[ord(ch) for ch in "".join(chr(y) for y in x[1][0]).strip()]] + x[1][1:]]
                     if x[0] == "T" and all(isinstance(y, int) for y in x[1][0]) else x for x in seq]
         more = [norm(a) for a in pa[0][1][1:]]
-        coq_cases.append("(%s, %s, %s, %s)" % (G.coq_lib([[t[0], t[1], t[2]] for t in r["lib_ast"]]), G.coq_enc(pa[0][1][0][4:]),
+        coq_cases.append("(%s, %s, %s, %s)" % (G.coq_lib([[t[0], t[1], t[2]] for t in r["lib_ast"]]), G.coq_enc(norm(pa[0][1][0][4:])),
                                                clist(more, G.coq_enc, "enc"), cstr(r["out"])))
         idx.append(i)
     imports = IMPORTS + ["Model.FlatCall"]
     ty = "list tpl * enc * list enc * str"
-    outside, errs = lib.coq_eval_failing("c04v0", imports, ty, coq_cases, "fun '(l, c, m, o) => if_calls_ok parser_functions l c m", chunk=300)
+    # (if_cond_calls_result is if_calls_result when the condition is plain: page_result_of_plain)
+    outside, errs = lib.coq_eval_failing("c04v0", imports, ty, coq_cases, "fun '(l, c, m, o) => if_cond_calls_ok parser_functions l c m", chunk=300)
     for e in errs:
         run.correspondence_break("model evaluation failed (#if with calls)", None, error=e)
     for b in outside:
         run.correspondence_break("a generated #if call is outside the fragment of Model.FlatCall.if_calls_ok", cases[idx[b]])
-    bad, errs = lib.coq_eval_failing("c04v", imports, ty, coq_cases, "fun '(l, c, m, o) => str_eqb (codes (if_calls_result l c m)) o", chunk=300)
+    bad, errs = lib.coq_eval_failing("c04v", imports, ty, coq_cases, "fun '(l, c, m, o) => str_eqb (codes (if_cond_calls_result l c m)) o", chunk=300)
     for e in errs:
         run.correspondence_break("model evaluation failed (#if with calls rule)", None, error=e)
     for b in bad:
         if b in outside:
             continue
         c = cases[idx[b]]
-        want = lib.coq_eval_term(imports, "(fun '(l, c, m, o) => codes (if_calls_result l c m)) (%s)" % coq_cases[b])
+        want = lib.coq_eval_term(imports, "(fun '(l, c, m, o) => codes (if_cond_calls_result l c m)) (%s)" % coq_cases[b])
         run.property_failure("c04:if-with-calls-differs-from-its-rule",
                              "expand(%r) with templates %r gave %r; the rule (Model.FlatCall.if_calls_result) gives code points %s"
                              % (c["page"], c["lib"], res[idx[b]]["out"], " ".join(want.split())[:300]), c)
